@@ -10,12 +10,101 @@ SRCS = ["alg/sha256.c", "alg/sha1.c", "alg/md5.c", "alg/sha256_shani.c", "alg/sh
         "cpusupport/cpusupport_x86_aesni.c", "cpusupport/cpusupport_x86_shani.c", "cpusupport/cpusupport_x86_sse2.c",
         "cpusupport/cpusupport_x86_ssse3.c",
         "util/insecure_memzero.c", "util/warnp.c"]
-LDFLAGS = ["-Wl,--wrap=malloc,--wrap=free,--wrap=strdup", "-lcrypto"]
+LDFLAGS = ["-Wl,--wrap=malloc,--wrap=free,--wrap=strdup,--wrap=realloc,--wrap=fopen", "-lcrypto"]
 P = (1 << 2048) - 1
 
 
-def gen_wipe(rng, tier, mult):
-    n = (6000 if tier == "quick" else 40000) * mult
+def printable(r, n, lo=0x21, hi=0x7e):
+    return bytes(r.range(lo, hi) for _ in range(n))
+
+
+def op_aeskey(r):
+    return "aeskey %s" % hx(r.bytes(r.choice([16, 32])))
+
+
+def op_aesctr(r):
+    chunks = [hx(r.bytes(r.choice([0, 1, 15, 16, 17, 31, 32, 33, 100]))) for _ in range(r.range(1, 4))]
+    return "aesctr %s %d %d %s" % (hx(r.bytes(r.choice([16, 32]))), r.below(1 << 62), r.below(2), " ".join(chunks))
+
+
+def op_readkeys(r):
+    """a key file around one secret line.  Lengths are chosen around what matters to a reader of lines: the 1024-byte
+    buffer of the code, and line buffers that grow (120 bytes is glibc getline's first allocation, then doubling)."""
+    k = r.below(10)
+    slen = r.range(1, 7) if k == 0 else r.range(8, 15) if k == 1 else r.range(16, 48) if k < 7 else \
+        r.choice([100, 101, 102, 103, 119, 120, 199, 200]) if k == 7 else r.range(49, 200)
+    secret = printable(r, slen)
+    if r.chance(1, 8):
+        secret = secret.replace(b"=", b"x")           # most secrets may contain '=' (the line is split at the first one)
+    kid = printable(r, r.range(4, 20), 0x41, 0x5a)
+    idl = b"ACCESS_KEY_ID=" + kid + b"\n"
+    secl = b"ACCESS_KEY_SECRET=" + secret + b"\n"
+
+    def long_line(kind):
+        n = r.choice([100, 119, 120, 121, 239, 240, 241, 479, 481, 1000, 1022, 1023, 1024, 1025, 2047, 2048, 2049, 3000,
+                      r.range(100, 3000), r.range(100, 3000)])
+        if kind == "id":            # a well-formed line that is long (only possible before an id was seen)
+            return b"ACCESS_KEY_ID=" + printable(r, max(1, n - 15), 0x41, 0x5a) + b"\n"
+        if kind == "unknown":       # a long line with a separator but an unknown key: the failing line
+            return b"X" * (n // 2) + b"=" + printable(r, n - n // 2 - 1) + b"\n"
+        if kind == "nosep":         # a long line without separator: the failing line
+            return printable(r, n, 0x41, 0x5a) + b"\n"
+        return printable(r, n, 0x41, 0x5a)              # long and without EOL (last line)
+
+    v = r.below(22)
+    if v == 0:
+        lines = [idl, secl]                                # success
+    elif v == 1:
+        lines = [secl, b"GARBAGE\n"]                       # fails after the secret line: no '='
+    elif v == 2:
+        lines = [secl, secl]                               # secret twice
+    elif v == 3:
+        lines = [secl, b"OTHER=1\n"]                       # unknown key after the secret
+    elif v == 4:
+        lines = [secl]                                     # id missing at the end
+    elif v == 5:
+        lines = [secl, b"ACCESS_KEY_ID=" + kid]            # missing EOL on the last line
+    elif v == 6:
+        lines = [idl, secl, idl]                           # id twice after the secret
+    elif v == 7:
+        lines = [secl, b"x" * 1100 + b"\n"]                # over-long line after the secret
+    elif v == 8:
+        lines = [secl, b"ACCESS_KEY_SECRET=" + secret[:r.range(0, len(secret) - 1)] + b"\n"]   # second, shorter secret
+    elif v == 9:
+        lines = [idl, secl, b"ACCESS_KEY_SECRET=\n"]                                            # second, empty secret
+    elif v == 10:
+        lines = [secl, b"ACCESS_KEY_SECRET=" + secret + printable(r, r.range(1, 30), 0x41, 0x5a) + b"\n"]  # longer
+    elif v == 11:
+        lines = [secl, idl, b"\n"]                                                              # empty line after both keys
+    elif v == 12:
+        lines = [secl, long_line("id")]                    # long well-formed line AFTER the secret (success if < 1024)
+    elif v == 13:
+        lines = [long_line("id"), secl]                    # ... BEFORE the secret
+    elif v == 14:
+        lines = [secl, long_line("unknown")]               # the long line is the failing line
+    elif v == 15:
+        lines = [secl, long_line("nosep")]
+    elif v == 16:
+        lines = [secl, long_line("noeol")]
+    elif v == 17:
+        lines = [idl, secl, long_line(r.choice(["unknown", "nosep", "id"]))]
+    elif v == 18:
+        lines = [long_line(r.choice(["unknown", "nosep"])), secl]          # fails before the secret is ever read
+    elif v == 19:
+        # growing lines: each longer than the one before, the secret somewhere in the middle
+        ls = sorted(r.range(20, 3000) for _ in range(r.range(2, 5)))
+        lines = [b"ACCESS_KEY_ID=" + printable(r, ls[0], 0x41, 0x5a) + b"\n", secl] + \
+                [printable(r, n, 0x41, 0x5a) + (b"=" if r.chance(1, 2) else b"") + b"\n" for n in ls[1:]]
+    elif v == 20:
+        lines = [secl, b"\r\n", long_line("id")]           # CR LF handling, then a long line
+    else:
+        lines = [secl.replace(b"\n", b"\r\n"), long_line(r.choice(["id", "unknown"]))]
+    return "readkeys %s %s" % (hx(secret), hx(b"".join(lines)))
+
+
+def gen_wipe(rng, tier, mult, n=None, focus=None):
+    """focus=None: all operations; "keys": mostly key files (the sanitizer build, where every released block is seen)"""
+    n = ((6000 if tier == "quick" else 40000) if n is None else n) * mult
     cases = []
     lens = [0, 1, 55, 56, 63, 64, 65, 119, 120, 128, 200]
     for ci in range(n):
@@ -23,6 +112,8 @@ def gen_wipe(rng, tier, mult):
         ops = []
         for _ in range(r.range(1, 4)):
             k = r.below(100)
+            if focus == "keys" and k >= 30:
+                k = 90
             if k < 6:
                 # util/insecure_memzero.c itself: every alignment, lengths that are not multiples of the word size
                 ops.append("memzero %d %d" % (r.range(0, 15), r.choice([0, 1, 2, 3, 4, 5, 6, 7, 8, 9, 15, 16, 17, 31, 33, 63, 65, r.range(0, 300)])))
@@ -33,10 +124,9 @@ def gen_wipe(rng, tier, mult):
                 chunks = [hx(r.bytes(r.choice(lens))) for _ in range(r.range(0, 3))]
                 ops.append(("hmac %s %s %s" % (r.choice(["sha256", "sha1", "md5"]), hx(r.bytes(r.choice([0, 1, 20, 63, 64, 65, 100]))), " ".join(chunks))).rstrip())
             elif k < 48:
-                ops.append("aeskey %s" % hx(r.bytes(r.choice([16, 32]))))
+                ops.append(op_aeskey(r))
             elif k < 60:
-                chunks = [hx(r.bytes(r.choice([0, 1, 15, 16, 17, 31, 32, 33, 100]))) for _ in range(r.range(1, 4))]
-                ops.append("aesctr %s %d %d %s" % (hx(r.bytes(r.choice([16, 32]))), r.below(1 << 62), r.below(2), " ".join(chunks)))
+                ops.append(op_aesctr(r))
             elif k < 85:
                 pub = "-" if r.chance(1, 2) else hx(r.bytes(256))
                 z = 0 if r.chance(4, 5) else r.range(1, 24)          # leading zero bytes sometimes
@@ -46,35 +136,25 @@ def gen_wipe(rng, tier, mult):
                 failat = 0 if r.chance(1, 3) else r.range(1, 60)
                 ops.append("dh %s %s %s %d" % (pub, hx(priv), blind, failat))
             else:
-                secret = bytes(r.range(0x21, 0x7e) for _ in range(r.range(16, 48)))
-                kid = bytes(r.range(0x41, 0x5a) for _ in range(r.range(4, 20)))
-                good = [b"ACCESS_KEY_ID=" + kid + b"\n", b"ACCESS_KEY_SECRET=" + secret + b"\n"]
-                v = r.below(12)
-                if v == 0:
-                    lines = good                                       # success
-                elif v == 1:
-                    lines = [good[1], b"GARBAGE\n"]                    # fails after the secret line: no '='
-                elif v == 2:
-                    lines = [good[1], good[1]]                         # secret twice
-                elif v == 3:
-                    lines = [good[1], b"OTHER=1\n"]                    # unknown key after the secret
-                elif v == 4:
-                    lines = [good[1]]                                  # id missing at the end
-                elif v == 5:
-                    lines = [good[1], b"ACCESS_KEY_ID=" + kid]         # missing EOL on the last line
-                elif v == 6:
-                    lines = [good[0], good[1], good[0]]                # id twice after the secret
-                elif v == 7:
-                    lines = [good[1], b"x" * 1100 + b"\n"]             # over-long line after the secret
-                elif v == 8:
-                    lines = [good[1], b"ACCESS_KEY_SECRET=" + secret[:r.range(0, len(secret) - 1)] + b"\n"]   # second, shorter secret
-                elif v == 9:
-                    lines = [good[0], good[1], b"ACCESS_KEY_SECRET=\n"]                                        # second, empty secret
-                elif v == 10:
-                    lines = [good[1], b"ACCESS_KEY_SECRET=" + secret + bytes(r.range(0x41, 0x5a) for _ in range(r.range(1, 30))) + b"\n"]  # longer
-                else:
-                    lines = [good[1], b"ACCESS_KEY_ID=" + kid + b"\n", b"\n"]                                  # empty line after both keys
-                ops.append("readkeys %s %s" % (hx(secret), hx(b"".join(lines))))
+                ops.append(op_readkeys(r))
+        cases.append(ops)
+    return cases
+
+
+def gen_keys(rng, tier, mult):
+    return gen_wipe(rng, tier, mult, n=1500 if tier == "quick" else 12000, focus="keys")
+
+
+def gen_soft(rng, tier, mult):
+    """the software AES path of a build that has AES-NI compiled in: every case first makes the library's one-time
+    self-test of the accelerated code fail, then expands / uses / frees keys"""
+    n = (400 if tier == "quick" else 4000) * mult
+    cases = []
+    for ci in range(n):
+        r = rng.fork("s%d" % ci)
+        ops = ["aesmode sw"]
+        for _ in range(r.range(1, 4)):
+            ops.append(op_aeskey(r) if r.chance(1, 2) else op_aesctr(r))
         cases.append(ops)
     return cases
 
@@ -92,6 +172,15 @@ def classify(case, out):
                 tags.append("dh_success_path")
         if w[0] == "readkeys":
             tags.append("readkeys_" + ("fail" if "rc=-1" in res else "ok"))
+            body = bytes.fromhex(w[2])
+            lines = body.split(b"\n")
+            si = [i for i, l in enumerate(lines) if l.startswith(b"ACCESS_KEY_SECRET=")]
+            if si and any(len(l) > len(lines[si[0]]) for l in lines[si[0] + 1:]):
+                tags.append("readkeys_longer_line_after_secret")
+            if len(w[1]) < 16:
+                tags.append("readkeys_secret_shorter_than_8")
+        if w[0] == "aesmode":
+            tags.append("aes_" + res.split(" | ")[0].replace(" ", "_"))
     return tags
 
 
@@ -103,7 +192,22 @@ def components(ctx):
         rule="hash/HMAC streams over the padding boundaries; AES key expand+free (both key sizes); AES-CTR init/stream*/init2/free; "
              "DH generate_pub/compute with random and leading-zero private values, entropy failure, and failure of the k-th OpenSSL "
              "allocation for k in 1..60 (every rung of the BIGNUM error ladder); key files that fail after the secret line "
-             "(garbage, duplicate, unknown key, missing id, missing EOL, over-long line). Every case is non-trivial; distinct by hash.",
+             "(garbage, duplicate, unknown key, missing id, missing EOL, over-long line), lines of 100..3000 characters before / after "
+             "the secret line (also as the failing line), secrets of 1..200 characters. Every case is non-trivial; distinct by hash.",
+        classify=classify, ldflags=LDFLAGS, sanitize=False, opt="-O2", ignore_l2=True,
+        env={"HWIPE_TMP": tmp}),
+        vlib.Component(
+        "wipeall", "h_wipe.c", SRCS, ["wipe"], gen_keys,
+        nontrivial=lambda c: True,
+        rule="the same operations in an AddressSanitizer build, where __sanitizer_free_hook shows EVERY block released while a secret "
+             "is armed (also blocks released inside libc, e.g. by getline/realloc moving a line buffer); 70% key files.",
+        classify=classify, ldflags=LDFLAGS, ignore_l2=True, env={"HWIPE_TMP": tmp}),
+        vlib.Component(
+        "wipesoft", "h_wipe.c", SRCS, ["wipe"], gen_soft,
+        nontrivial=lambda c: any(o.startswith(("aeskey", "aesctr")) for o in c),
+        rule="AES-NI compiled in (HWACCEL) but not selected at run time: each case starts by making the one-time self-test of the "
+             "accelerated code fail (its allocations fail), checks that the library reports software AES, then expands/uses/frees "
+             "keys and streams; freed blocks must be all zero.",
         classify=classify, ldflags=LDFLAGS, sanitize=False, opt="-O2", ignore_l2=True,
         env={"HWIPE_TMP": tmp})]
 
@@ -113,7 +217,8 @@ def check(ctx):
         ctx, MODULES, components(ctx),
         assumptions=["OpenSSL's BN_clear_free cleanses before releasing (its internals are not modelled; observed through CRYPTO_set_mem_functions)",
                      "the compiler must not elide insecure_memzero: observed in this -O2 build only",
-                     "blocks released by libc itself (stdio buffers in fclose) are outside the statement: only blocks the library frees are inspected",
+                     "the stdio buffer of the key file (released inside fclose) is outside the statement: the harness gives the FILE a static buffer; "
+                     "every other block released while a secret is armed is inspected (sanitizer build: by anyone, -O2 build: by the library)",
                      "stack copies and registers are outside the statement"],
         trusted=["pmodel (compiled Lean model)", "tools/extractors/c20.py (statement lists of the clean-up code, regenerated each run)",
-                 "harness/h_wipe.c (link-time malloc/free wrappers, OpenSSL allocator hooks)"])
+                 "harness/h_wipe.c (link-time malloc/free/realloc/strdup/fopen wrappers, OpenSSL allocator hooks, __sanitizer_free_hook)"])
